@@ -24,6 +24,8 @@ type req struct {
 	TimeoutMs int    `json:"timeout_ms"`
 	Queries   int    `json:"queries"`
 	E2E       int    `json:"e2e"`
+	WantV6    bool   `json:"want_v6"`
+	Skip      bool   `json:"skip_private"`
 }
 type hop struct {
 	TTL   int    `json:"ttl"`
@@ -49,7 +51,7 @@ func main() {
 	tr := traceroute.NewTraceroute()
 	res, err := tr.RunTraceroute(context.Background(), traceroute.TracerouteParams{
 		Hostname: r.Hostname, Port: r.Port, Protocol: r.Protocol, TCPMethod: traceroute.TCPMethod(r.TCPMethod), MinTTL: r.MinTTL, MaxTTL: r.MaxTTL,
-		Delay: 20, Timeout: time.Duration(r.TimeoutMs) * time.Millisecond, TracerouteQueries: r.Queries, E2eQueries: r.E2E})
+		Delay: 20, Timeout: time.Duration(r.TimeoutMs) * time.Millisecond, TracerouteQueries: r.Queries, E2eQueries: r.E2E, WantV6: r.WantV6, SkipPrivateHops: r.Skip})
 	out := map[string]any{"ok": err == nil, "err": "", "runs": []run{}, "rtts_us": []int64{}}
 	if err != nil {
 		out["err"] = err.Error()
